@@ -2,8 +2,9 @@
 //
 // Behaviours come from spec/Bridge.tla (TLC, transition coverage + random simulation): scripts of
 // environment steps (an end writes a chunk of a size class around the 32 KiB copy buffer, the
-// target attaches, an end closes / fails / fails inside a write / has a transient read timeout,
-// the source reconnects, a third party closes the bridge) interleaved with the Read and Write
+// target attaches, an end closes / fails / fails inside a write / has a transient read timeout -
+// with or without bytes coming together with the timeout, EOF or error -, the source reconnects,
+// a third party closes the bridge, an end goes away while a chunk is being paced out at 1 KiB/s) interleaved with the Read and Write
 // steps of the two copy loops, per bandwidth-limit class. Each script is executed on the real
 // code the way the server runs a tunnel: a real session.SessionManager, the real (unexported,
 // bound by go:linkname) SessionManager.startSourceBridge - which builds the real tunnel.Bridge,
@@ -424,11 +425,13 @@ func main() {
 			"non-trivial = a trace with a delivery or closure observation",
 		Assumptions: []string{
 			"model buffer BUF=3 stands for the 32 KiB copy buffer; size classes map to {1, 32K-1, 32K, 32K+1, 64K (gated or paced) / 1 MiB (free, unpaced)} bytes",
-			"limit classes map to {0, 16383 B/s (burst 32766 < 32767), 16384 B/s (burst = 32 KiB), 256 MiB/s}; at most 5 model units (~54 KiB) are sent under a pacing limit (limiter waits stay below ~1.5 s)",
+			"limit classes map to {0, 16383 B/s (burst 32766 < 32767), 16384 B/s (burst = 32 KiB), 256 MiB/s, slow = 1024 B/s (burst 2 KiB: a 32 KiB chunk is paced out over 30 s; " +
+				"only scripts in which an end without backlog of its own closes / fails 150 ms into that pacing are driven under it)}; at most 5 model units (~54 KiB) are sent under a pacing limit (limiter waits stay below ~1.5 s)",
 			"bounded time = 5 s: closure/forgetting are measured from the first close/failure (or the attach, if later); a drain gives up after 5 s without any byte moving",
 			"a behaviour during which a 5 ms sleeper woke more than 1.6 s late is discarded as inconclusive",
 			"closed early is read from the trace: completeness is demanded at drains while both ends are open, and for a graceful close after the last write with a silent peer",
 			"a fake connection preserves the write boundaries of its end; writes to a closed/failed end fail; a failed end drops unread bytes",
+			"a fake connection can return bytes together with an error at a scripted read: (n, temporary timeout), (n, io.EOF) for the last bytes of a closed end, (n, connection error) for a failed end; such bytes count as read",
 			"source replacement is outside the statement's wording: the pipe clauses are kept for the logical source end only after a clean handover (nothing unread on the old connection); closure/forgetting are judged as for any tunnel",
 			"behaviours run in worker child processes; a worker that dies of a Go panic whose topmost frame is tunnox-core code is the observation Crash{fn} (clause Crash), any other worker death is a harness failure (exit 2)",
 			"the generator follows the limiter variant (error / split waits on n > burst) that a probe on the real code shows; both variants are model-checked",
